@@ -20,6 +20,11 @@ Definition run_ladder (p : plat) (meth site : string) (e : err) (s : pstate) (pi
        (if err_ok p e then jopt (jv_res pid) (demanded p meth site c) else jnone);
        jopt (jv_res pid) (contract p meth site c) ].
 
+(* every native call of the method fails with e (site = the first call the method makes) *)
+Definition run_allfail (p : plat) (meth site : string) (e : err) (s : pstate) (pid : Z) : jv :=
+  let c := Build_cond e s (pid =? 0) in
+  JL [ jv_res pid (all_outcome p meth site c);
+       (if err_ok p e then jopt (jv_res pid) (all_demanded p meth site c) else jnone) ].
 Definition run_pair (p : plat) (meth site1 site2 : string) (e1 e2 : err) (s : pstate) (pid : Z) : jv :=
   let z := pid =? 0 in
   JL [ jv_res pid (pair_outcome p meth site1 site2 e1 e2 s z);
@@ -64,12 +69,13 @@ Definition jv_src (s : src) : jv :=
 Definition jv_srcs (fs : list (string * src)) : jv := JL (map (fun f => JL [jstr (fst f); jv_src (snd f)]) fs).
 Definition run_olayout (p : plat) (meth variant : string) : jv :=
   JL [ match find_urow p meth variant usage_rows with
-       | Some u => JL [jv_shape (u_shape u); jstr (u_type u); jv_srcs (u_fields u)]
+       | Some u => JL [jv_shape (u_shape u); jstr (u_type u); jv_srcs (u_fields u);
+                       JL (map (fun b => JL [jstr (fst b); JZ (snd b)]) (u_falsy_bad u))]
        | None => JC "NoRow" []
        end;
        match doc_layout p meth variant with
        | Some d => match resolve_fields p (d_fields d) with
-                   | Some fs => JL [jv_shape (d_shape d); jstr (d_type d); jv_srcs fs]
+                   | Some fs => JL [jv_shape (d_shape d); jstr (d_type d); jv_srcs fs; JL []]
                    | None => JC "Unresolved" []
                    end
        | None => jnone
@@ -123,7 +129,9 @@ Definition run_tables : jv :=
        JL (map (fun r => JL [jstr (rr_meth r); JZ (rr_k r)]) (filter (fun r => negb (rrow_ok r)) retry_rows));
        jbool (forallb wrow_ok wait_rows && wrows_complete wait_rows && pblocks_complete pair_blocks);
        JL (map (fun r => JL [jstr (sf_fn r); JL (map jstr (sf_fields r))]) (filter (fun r => negb (sfrow_ok r)) sysfield_rows));
-       jbool (sfrows_complete sysfield_rows) ].
+       jbool (sfrows_complete sysfield_rows);
+       JL (map (fun b => JL [jstr (l_meth b); jstr (l_site b)]) (filter (fun b => negb (ablock_ok b)) all_blocks));
+       jbool (ablocks_complete ladder_blocks all_blocks) ].
 
 (* named tuple of a system-wide function on a platform: probed field list, documented field list *)
 Definition run_sysfields (p : plat) (fn : string) : jv :=
